@@ -206,6 +206,57 @@ def _constructor_cases(_):
     return out
 
 
+def _param_history_cases(args):
+    """Several operators built in ONE process on the same degrees of freedom and basis sizes but different basis parameters
+    (a frequency / displacement scan): every construction must use the matrices of ITS basis sets."""
+    bootstrap()
+    from renormalizer.model import Op, basis as ba
+    from renormalizer.tn import BasisTree, TTNO
+    from renormalizer.tn.node import TreeNodeBasis
+    seed, k = args
+    out = {"cases": [], "viol": []}
+    rng = rng_for(seed, "c02-params", k)
+    for shape in ("chain", "star"):
+        for step in range(3):
+            omega = [float(rng.uniform(0.4, 2.0)) for _ in range(2)]
+            x0 = [float(rng.uniform(-0.5, 0.5)) if step else 0.0 for _ in range(2)]
+            detail = {"shape": shape, "step": step, "omega": omega, "x0": x0, "k": k}
+            out["cases"].append(json.dumps(detail))
+            try:
+                bs = [ba.BasisHalfSpin("s"), ba.BasisSHO("v0", omega[0], 4, x0=x0[0]), ba.BasisSHO("v1", omega[1], 3, x0=x0[1])]
+                nodes = [TreeNodeBasis([b]) for b in bs]
+                if shape == "chain":
+                    nodes[0].add_child(nodes[1])
+                    nodes[1].add_child(nodes[2])
+                else:
+                    nodes[0].add_child(nodes[1])
+                    nodes[0].add_child(nodes[2])
+                tree = BasisTree(nodes[0])
+                terms = [Op("sigma_z", "s", 0.7), Op("x", "v0", 0.5), Op("x^2", "v1", 0.3), Op("sigma_x x", ["s", "v0"], 0.4), Op("x x", ["v0", "v1"], -0.6),
+                         Op(r"b^\dagger b", "v1", 1.1), Op("p^2", "v0", 0.2)]
+                for algo in ("Hopcroft-Karp", "qr"):
+                    got = np.asarray(TTNO(tree, terms, algo=algo).todense(bs))
+                    ref = np.zeros_like(got, dtype=complex)
+                    for t in terms:
+                        mats = []
+                        for b in bs:
+                            if b.dof in t.dofs:
+                                sub = [sy for sy, d_ in zip(t.split_symbol, t.dofs) if d_ == b.dof]
+                                mats.append(np.asarray(b.op_mat(Op(" ".join(sub), [b.dof] * len(sub)))))
+                            else:
+                                mats.append(np.eye(b.nbas))
+                        full = np.eye(1)
+                        for m_ in mats:
+                            full = np.kron(full, m_)
+                        ref = ref + t.factor * full
+                    d_ = np.linalg.norm(got - ref)
+                    if d_ > 1e-10 * (np.linalg.norm(ref) + 1):
+                        out["viol"].append((f"C02:parameter-history:{algo}", f"construction number {step + 1} in this process (omega={omega}, x0={x0}) differs from the sum of products of ITS basis matrices by {d_:.2e}", detail))
+            except Exception as e:
+                out["viol"].append((f"C02:parameter-history:raises:{type(e).__name__}", f"{type(e).__name__}: {e}", detail))
+    return out
+
+
 def run(ctx):
     tier = ctx.tier
     Ks = (2, 3, 4) if tier == "quick" else (2, 3, 4, 5)
@@ -256,6 +307,13 @@ def run(ctx):
         for key, what, detail in o["viol"]:
             ctx.violation(key, what, detail)
         traces += o["traces"]
+    for st_, o in pmap(_param_history_cases, [(ctx.seed, k) for k in range(2 if tier == "quick" else 8)], chunksize=1):
+        if st_ != "ok":
+            raise MachineryError("parameter-history worker failed: " + o)
+        for c in o["cases"]:
+            ctx.case(fingerprint=c, nontrivial=True)
+        for key, what, detail in o["viol"]:
+            ctx.violation(key, what, detail)
     st_, o = pmap(_constructor_cases, [0], chunksize=1)[0]
     if st_ != "ok":
         raise MachineryError("constructor worker failed: " + o)
